@@ -757,10 +757,11 @@ def case_class(case: dict[str, Any]) -> str:
         return f"relaxed-acceleration:{accel}"
     if cls != "MDAChain" and cls != "MDAJacobi" and case.get("shape") != "strong":
         # an elementary MDA used directly on several strongly connected components
+        suffix = f"/{m['method']}" if cls == "MDAQuasiNewton" else ""
         if has_weak_disciplines(case):
-            return f"elementary-mda-on-weak-couplings:{cls}"
+            return f"elementary-mda-on-weak-couplings:{cls}{suffix}"
         if len(scc_sequence(case)) > 1 and not case.get("groups"):
-            return f"elementary-mda-on-several-groups:{cls}"
+            return f"elementary-mda-on-several-groups:{cls}{suffix}"
     if cls == "MDAChain":
         cls += "/" + m["inner"]
     if cls.endswith("MDAQuasiNewton"):
